@@ -148,6 +148,7 @@ def classify(A, wire):
 
 class TranslatorRx(Sub):
     name = "translator"
+    shrink_budget = 150
     budget = {"quick": 6000, "thorough": 80000}
     rule = ("UTMITranslator + ULPI PHY BFM: event lists of PHY bursts (RxCmds, receives started by DIR+NXT or by "
             "RxCmd, NXT throttling with RxCmds interleaved, stop by RxCmd or DIR drop, back to back), 1 case in 4 "
@@ -297,6 +298,7 @@ class WindowDriver:
 
 class RegReadRx(Sub):
     name = "regread"
+    shrink_budget = 150
     budget = {"quick": 4000, "thorough": 50000}
     rule = ("ULPIRegisterWindow + ULPIRxEventDecoder wired as in UTMITranslator, PHY BFM serving register reads "
             "(and writes) with RxCmd bursts before, interrupting, and chained directly after the read data; oracle: "
